@@ -232,8 +232,11 @@ def run(prog, rep):
 
     # ----------------------------------------------------------------- ACC-1 (the duplicate-id error rule finds every duplicate)
     from .. import analysis
-    from .c08 import acc1_rule, tab2_rule, tab3_rule
+    from .c08 import acc1_rule, tab2_rule, tab3_rule, dup1_rule, dup2_rule
     acc1_rule(prog, rep, analysis.get(prog).s)
+    # the duplicate sibling name rule: a seen-set scan (DUP-1) keyed by the Property name alone (DUP-2)
+    dup1_rule(prog, rep)
+    dup2_rule(prog, rep)
     # the error rules are what blocks a save: they must be registered for the kinds they are documented for, with rank error
     tab2_rule(prog, rep, analysis.get(prog).k, "REG-1", only_rank="error")
     registry_only_grows(prog, rep, "REG-2")
